@@ -11,6 +11,7 @@ import (
 )
 
 func init() {
+	zzverif.Register("VerifC02Twin", VerifC02Twin)
 	zzverif.Register("VerifC02Notation", VerifC02Notation)
 	zzverif.Register("VerifC02NotationDeep", VerifC02NotationDeep)
 	zzverif.Register("VerifC02Kinds", VerifC02Kinds)
@@ -169,7 +170,11 @@ func (p c02Posting) line(i int) string {
 }
 
 // c02Check runs the real code on the transaction and compares with the exact oracle.
-func c02Check(ps []c02Posting, label string) {
+func c02Check(ps []c02Posting, label string) { c02CheckAfter(ps, label, "") }
+
+// c02CheckAfter: the server has analysed the document `before` (if any) first: a verdict must
+// not depend on what was analysed earlier.
+func c02CheckAfter(ps []c02Posting, label, before string) {
 	doc := "2024-01-15 x\n"
 	for i, p := range ps {
 		doc += p.line(i)
@@ -247,6 +252,9 @@ func c02Check(ps []c02Posting, label string) {
 	}
 	// ---- real code ----
 	s := NewServer()
+	if before != "" {
+		_ = s.analyze(before, nil)
+	}
 	diags := s.analyze(doc, nil)
 	nUnb, nMulti, nOther := 0, 0, 0
 	for _, d := range diags {
@@ -403,6 +411,57 @@ func verifC02Cost(deep bool) {
 		}
 	}
 	c02Check(ps, "cost")
+}
+
+// c02Lit is a concrete amount: sign, digits with optional point, commodity index.
+func c02Lit(neg bool, digits string, ci int) c02Written {
+	v, _ := new(big.Int).SetString(c02StripDot(digits), 10)
+	fr := c02FracLen(digits)
+	c := c02Comms[ci]
+	text := c.left + digits + c.right
+	if neg {
+		text = "-" + text
+		v = new(big.Int).Neg(v)
+	}
+	return c02Written{text: text, num: c02Num{v: v, scale: fr}, comm: c.sym, fracs: fr}
+}
+
+// VerifC02Twin: a verdict is a function of the transaction alone. The same server first
+// analyses a NEAR TWIN of the transaction - the same quantities, commodities and cost amounts
+// with one feature exchanged (unit <-> total cost, ordinary <-> balanced-virtual posting, the
+// sign of the counter amount, the counter commodity) - in an earlier document or earlier in the
+// same document; the verdict on the transaction itself must still be the oracle's. All values
+// are concrete (the symbolic-digit harnesses decide the arithmetic; this one decides that no
+// state survives between analyses).
+func VerifC02Twin() {
+	qty := []string{"10", "3", "1.5"}[zzverif.Choice("qty", 3)]
+	price := []string{"150", "2", "0.5"}[zzverif.Choice("price", 3)]
+	counter := []string{"1500", "150", "6", "3", "20", "0.75"}[zzverif.Choice("counter", 6)]
+	mk := func(cost, kind int, negCounter bool, counterComm int) []c02Posting {
+		return []c02Posting{
+			{kind: kind, has: true, amt: c02Lit(false, qty, 1), cost: cost, costAmt: c02Lit(false, price, 0)},
+			{kind: kind, has: true, amt: c02Lit(negCounter, counter, counterComm)},
+		}
+	}
+	cost := 1 + zzverif.Choice("cost", 2)
+	kind := []int{0, 2}[zzverif.Choice("kind", 2)]
+	ps := mk(cost, kind, true, 0)
+	var twin []c02Posting
+	switch zzverif.Choice("twin", 4) {
+	case 0:
+		twin = mk(3-cost, kind, true, 0)
+	case 1:
+		twin = mk(cost, 2-kind, true, 0)
+	case 2:
+		twin = mk(cost, kind, false, 0)
+	default:
+		twin = mk(cost, kind, true, 2)
+	}
+	before := "2024-01-14 t\n"
+	for i, p := range twin {
+		before += p.line(i)
+	}
+	c02CheckAfter(ps, "twin", before)
 }
 
 func c02StripDot(s string) string {
